@@ -115,6 +115,10 @@ def registry_oracle(script, impl):
             if out != 'ok':
                 probs.append('new: ' + out[:100])
             continue
+        if op == 'twoconn':
+            if out != 'twoconn ok':
+                probs.append('connection-cleanup-incomplete: %s' % out[:200])
+            continue
         if op == 'lateidle':
             if out != 'lateidle ok':
                 probs.append('abandoned-transaction-not-reaped: %s' % out[:200])
